@@ -396,6 +396,8 @@ def run(run):
     rep.finish(rep.batch(section_perturb(rep), timeout_s=timeout), PROP)
     for li in range(len(LAYOUTS)):
         rep.finish(rep.batch([o for p_ in section_frames(rep, li) for o in p_], timeout_s=timeout), PROP)
+    rep.selfcheck(PROP, [{'check': 'to180', 'point': {'a': a_}} for a_ in (190.0, -725.5, 1e4 + 0.25)] + [{'check': 'series', 'point': {}}] +
+                  [{'check': 'frames', 'point': {}, 'params': {'layout': li}} for li in range(len(LAYOUTS)) if li != 2])
     for can in CANARIES:
         name, sec, spec = can[:3]
         try:
